@@ -70,8 +70,13 @@ func (fullGraph *FullGraph) SortedByFan(merge func(string) string) []*Fan {
 	}
 	for key := range mergedGraph.RelationList {
 		relation := mergedGraph.RelationList[key]
-		fanMap[relation.From].FanOut++
-		fanMap[relation.To].FanIn++
+		// a relation whose end is not a node of the graph counts for the end that is one
+		if fan, ok := fanMap[relation.From]; ok {
+			fan.FanOut++
+		}
+		if fan, ok := fanMap[relation.To]; ok {
+			fan.FanIn++
+		}
 	}
 	sort.Slice(result, func(i, j int) bool {
 		return (result[i].FanIn + result[i].FanOut) > (result[j].FanIn + result[j].FanOut)
